@@ -129,6 +129,11 @@ def run(tier, seed):
         i = ev_idx[gi]
         if i is None:
             raise common.ToolError("Trace_SerPool rejected a reset event")
+        if events[gi].get("ev") == "h_pool":
+            # the property is about the bytes of later serializations (judged on every call event); a buffer the configuration keeps
+            # pooled with stale content is the mechanism C14 names, but not by itself an observable failure: recorded, not an alarm
+            rep.note(f"a pooled buffer is not empty after a call (hook: lengths {events[gi].get('lens')}), schema {meta[i][0]['sid']}")
+            return
         cell, budget, sess = meta[i]
         hist = [j for j in range(len(cmds)) if meta[j][2] == sess and j <= i]
         rep.violation(f"session event rejected by Trace_SerPool (schema {cell['sid']}, budget {budget}): res={obs[i].get('res')}",
@@ -197,14 +202,33 @@ def validate_sessions(events, scope_path, rej):
         idxs.append(cur_i)
     results = common.validate_traces_parallel("Trace_SerPool", "Trace_SerPool.cfg", chunks, env={"VERIF_SCOPE": scope_path}, timeout=1500)
     for k, res in enumerate(results):
-        if res["accepted"]:
-            continue
-        fu = res["first_unmatched"]
-        if fu is None or fu < 1:
-            if "ModelPoolClean" in res["out"]:
-                raise common.ToolError("the SerImpl model's own pools became dirty while following a real session:\n" + res["out"][-1500:])
-            raise common.ToolError("Trace_SerPool failed without a reject index:\n" + res["out"][-2500:])
-        rej(idxs[k][fu - 1])
+        rest, rest_i, guard = chunks[k], idxs[k], 0
+        while not res["accepted"] and guard < 8:
+            guard += 1
+            fu = res["first_unmatched"]
+            if fu is None or fu < 1 or fu > len(rest):
+                if "ModelPoolClean" in res["out"]:
+                    raise common.ToolError("the SerImpl model's own pools became dirty while following a real session:\n" + res["out"][-1500:])
+                raise common.ToolError("Trace_SerPool failed without a reject index:\n" + res["out"][-2500:])
+            rej(rest_i[fu - 1])
+            if rest[fu - 1].get("ev") == "h_pool":
+                # a note only: go on with the same session, without its pool observations
+                a = fu - 1
+                while a > 0 and rest[a].get("ev") != "reset":
+                    a -= 1
+                j = fu
+                while j < len(rest) and rest[j].get("ev") != "reset":
+                    j += 1
+                keep = [(e, x) for e, x in zip(rest[a:j], rest_i[a:j]) if e.get("ev") != "h_pool"]
+                rest, rest_i = [e for e, _ in keep] + rest[j:], [x for _, x in keep] + rest_i[j:]
+            else:
+                j = fu
+                while j < len(rest) and rest[j].get("ev") != "reset":
+                    j += 1
+                rest, rest_i = rest[j:], rest_i[j:]
+            if not rest:
+                break
+            res = common.validate_trace("Trace_SerPool", "Trace_SerPool.cfg", rest, env={"VERIF_SCOPE": scope_path}, timeout=1500)
     return len(chunks)
 
 
